@@ -1,17 +1,18 @@
 #!/bin/bash
 # authoring helper: extract unit $1 from /repo (or $REPO) and run verus on it
 U=$1; shift
-mkdir -p /var/tmp/vw
+VW=${VW:-/var/tmp/vw}; export VW
+mkdir -p $VW
 python3 - "$U" <<'PY' || exit 2
 import sys, json
 sys.path.insert(0, '/verif/lib')
 import extract, os
 u = sys.argv[1]
 subst = {k: [tuple(r) for r in v] for k, v in json.load(open('/verif/contracts/subst.json')).items()}
-rep = extract.build_unit('/verif/contracts/%s.vrs' % u, '/verif/contracts/base', os.environ.get('REPO', '/repo'), '/var/tmp/vw/%s.rs' % u, subst_tables=subst)
+rep = extract.build_unit('/verif/contracts/%s.vrs' % u, '/verif/contracts/base', os.environ.get('REPO', '/repo'), os.environ['VW'] + '/%s.rs' % u, subst_tables=subst)
 if rep['problems']:
     print(json.dumps(rep['problems'], indent=1)); sys.exit(2)
 for f in rep['files']:
     if f['lost_rewrites'] or f['changed_vs_base']: print('NOTE', f)
 PY
-cd /var/tmp/vw && verus $U.rs --num-threads 16 "$@" 2>&1 | grep -v "^note: automatically chose\|^\s*$"
+cd $VW && verus $U.rs --num-threads 16 "$@" 2>&1 | grep -v "^note: automatically chose\|^\s*$"
